@@ -136,7 +136,7 @@ Print Assumptions C15_read_population_stray_line_panics.
 (* what the YAML writer accepts and the YAML reader's checks admit: at most eight trait parameters (the
    reader has eight slots: fewer are padded with zeros, more make it index out of range); no repeated
    non-zero trait id, no repeated node id; named neuron types and registered activation types; module
-   links that name nodes of the genome by non-zero ids; control node ids that are not node ids *)
+   links that name nodes of the genome (id 0 included since the repair of D19); control node ids that are not node ids *)
 Definition C15_yaml_writable (reg : registry) (g : genome) : Prop :=
   Forall (fun t => (length (t_params t) <= 8)%nat) (traits g) /\
   NoDup (filter (fun z => negb (Z.eqb z 0)) (map t_id (traits g))) /\
@@ -144,8 +144,8 @@ Definition C15_yaml_writable (reg : registry) (g : genome) : Prop :=
   Forall (fun n => (n_type n = HIDDEN \/ n_type n = INPUT \/ n_type n = OUTPUT \/ n_type n = BIAS) /\
                    exists s, reg_name reg (n_act n) = Some s) (nodes g) /\
   Forall (fun m => (exists s, reg_name reg (n_act (m_node m)) = Some s) /\
-                   Forall (fun p => fst p <> 0 /\ In (fst p) (map n_id (nodes g))) (m_ins m) /\
-                   Forall (fun p => fst p <> 0 /\ In (fst p) (map n_id (nodes g))) (m_outs m) /\
+                   Forall (fun p => In (fst p) (map n_id (nodes g))) (m_ins m) /\
+                   Forall (fun p => In (fst p) (map n_id (nodes g))) (m_outs m) /\
                    ~ In (n_id (m_node m)) (map n_id (nodes g))) (modules g).
 
 (* for EVERY behaviour [il] of the YAML library on integer-looking floats: the reader, applied to what the
